@@ -805,7 +805,7 @@ class Ctx:
             if f is None:
                 raise Unmodelled('promoted ' + t)
             return self.call_fn(f, [])
-        m = re.fullmatch(r'(?:std::|core::)?(i8|i16|i32|i64|isize|u8|u16|u32|u64|usize)::(MIN|MAX)', t)
+        m = re.fullmatch(r'(?:std::|core::)?(?:num::<impl )?(i8|i16|i32|i64|isize|u8|u16|u32|u64|usize)>?::(MIN|MAX)', t)
         if m:
             w = INT_W[m.group(1)]; sg = m.group(1) in SIGNED
             v = (-(1 << (w - 1)) if sg else 0) if m.group(2) == 'MIN' else ((1 << (w - 1)) - 1 if sg else (1 << w) - 1)
